@@ -8,7 +8,10 @@ rnd = sys.argv[1]
 wtsuffix = sys.argv[2] if len(sys.argv) > 2 else ""
 subdir = sys.argv[3] if len(sys.argv) > 3 else "out"
 props = {json.loads(l)["id"]: json.loads(l) for l in open("/verif/properties.jsonl")}
+only = set(sys.argv[4].split(",")) if len(sys.argv) > 4 else None
 for pid in sorted(props):
+    if only and pid not in only:
+        continue
     out = Path("/tmp/wt%s-%s/%s" % (wtsuffix, pid, subdir))
     for d in sorted(out.glob("mut*.diff")):
         n = re.search(r"mut(\d+)", d.name).group(1)
@@ -16,7 +19,8 @@ for pid in sorted(props):
         if not demo.exists():
             continue
         conf = subprocess.run(["/verif/tools/confirm_seed.sh", str(d), str(demo)], capture_output=True, text=True).stdout.strip().splitlines()[-1]
-        if "demo_clean_rc=0" not in conf or "demo_mutated_rc=0" in conf or "113 passed" not in conf:
+        if "demo_clean_rc=0" not in conf or "demo_mutated_rc=0" in conf or not re.search(r"'1\d\d passed", conf) \
+                or "failed" in conf or "error" in conf:
             print("NOT CONFIRMED", pid, n, conf); continue
         # which checks report it: the rules run in-process on an overlay of the patched files
         det = subprocess.run(["/verif/tools/eval_patches.py", "-v", str(d)], capture_output=True, text=True).stdout
@@ -26,6 +30,10 @@ for pid in sorted(props):
             if m:
                 reports.setdefault(m.group(1), []).append(("%s %s %s" % (m.group(2), m.group(3), m.group(4)))[:220])
         caught = sorted(reports)
+        for line in det.splitlines():
+            # the summary line lists every reporting property (-v shows each rule instance once)
+            if line.startswith(str(d) + ":"):
+                caught = sorted(set(caught) | {w for w in line.split(":", 1)[1].split() if re.fullmatch(r"C\d+", w)})
         sid = "%s-%s-%s" % (rnd, pid, n)
         dst = Path("/verif/seeded") / sid
         dst.mkdir(parents=True, exist_ok=True)
